@@ -125,6 +125,13 @@ def supplied_note(c, source):
     that other pattern may itself sit in another project."""
     if not source or source == "fresh":
         return mk_note(c)
+    if source == "shared":
+        # one Note object per distinct content, handed over for every cell that holds that content
+        # (a "rest" or "kick" object re-used across the pattern)
+        key = tuple(c)
+        if key not in _SHARED:
+            _SHARED[key] = mk_note(c)
+        return _SHARED[key]
     import copy
 
     from rv.api import NOTECMD, Pattern, Project
@@ -137,7 +144,8 @@ def supplied_note(c, source):
     return n.clone() if source.startswith("clone") else copy.deepcopy(n)
 
 
-NOTE_SOURCES = ["fresh", "fresh", "clone_of_foreign", "clone_of_foreign_attached", "deepcopy_of_foreign", "deepcopy_of_foreign_attached"]
+NOTE_SOURCES = ["fresh", "fresh", "clone_of_foreign", "clone_of_foreign_attached", "deepcopy_of_foreign", "deepcopy_of_foreign_attached", "shared"]
+_SHARED = {}
 
 
 def cells_of(pattern):
@@ -145,6 +153,11 @@ def cells_of(pattern):
 
 
 def apply_edit(pattern, edit, fail_at, before=None):
+    _SHARED.clear()
+    return _apply_edit(pattern, edit, fail_at, before)
+
+
+def _apply_edit(pattern, edit, fail_at, before=None):
     """Run one bulk edit.  fail_at None = let it complete.  Returns expected cells on success.
     before: what the pattern holds according to the model (so that nothing has to be read from
     the pattern before the edit; a pattern that was never looked at is a legitimate receiver)."""
